@@ -24,7 +24,7 @@ def run(chk):
     quick = chk.tier == "quick"
     rnd = random.Random(chk.seed)
     # 1. design level
-    maxw = 8 if quick else 10
+    maxw = 8 if quick else 11
     res = lib.tlc("BitOpsAlg", "MC_BitOpsAlg_cmp.cfg", env={"MAXW": maxw}, workers=bc.workers(8 if quick else 12),
                   timeout=600 if quick else 3000, coverage=False)
     chk.add_tlc(res, "design")
